@@ -16,10 +16,11 @@ def main():
     na_path = os.path.join(VERIF, "not_applicable.json")
     na_reasons = json.load(open(na_path)) if os.path.exists(na_path) else {}
     checks, na, engines = [], [], {}
+    accepted = set(json.load(open(os.path.join(VERIF, "accepted_checks.json"))))  # reviewed by the coordinator
     for p in props:
         pid = p["id"]
         modfile = os.path.join(VERIF, "mc", "checks", pid.lower() + ".py")
-        if not os.path.exists(modfile) or pid in na_reasons:
+        if not os.path.exists(modfile) or pid in na_reasons or pid not in accepted:
             na.append({"property_id": pid, "reason": na_reasons.get(pid, NOT_BUILT)})
             continue
         meta = importlib.import_module(f"mc.checks.{pid.lower()}").META
